@@ -19,8 +19,13 @@ for m in repo.modules.values():
         it = alpha.if_tests(f.node)
         cm = alpha.compares(f.node)
         bo = alpha.boolops(f.node)
-        if fp or it or cm or bo:
+        lg = alpha.log_stmts(f.node)
+        ne = alpha.noelse_ifs(f.node)
+        if fp or it or cm or bo or lg or ne:
             out[keys[q]] = {'l': fp, 'i': it, 'c': cm, 'b': bo}
+            if lg:
+                out[keys[q]]['g'] = lg
+            out[keys[q]]['n'] = ne
 import hashlib
 out['__modules__'] = {m.rel(): hashlib.sha1(m.src.encode()).hexdigest() for m in repo.modules.values()}
 os.makedirs(os.path.join(HERE, 'baseline'), exist_ok=True)
